@@ -793,7 +793,7 @@ fn rand_program(r: &mut Rng) -> Value {
                 0 => json!({"op": "fc", "key": *r.pick(&["k1", "k2"])}),
                 1 => json!({"op": "fe", "key": *r.pick(&["k1", "k2"])}),
                 2 => {
-                    let (h, hcl) = *r.pick(&[("abcd1234", "ok"), ("abc", "short"), ("", "short"), ("\u{e9}1ab", "short")]);
+                    let (h, hcl) = *r.pick(&[("abcd1234", "ok"), ("abc", "short"), ("", "short"), ("\u{e9}1ab", "ok"), ("a\u{e9}1b", "short")]);
                     json!({"op": "fg", "hash": h, "hcl": hcl})
                 }
                 _ => json!({"op": "fr", "name": "ab/cd/abcd.data", "off": r.below(100), "len": r.below(40)}),
